@@ -7,6 +7,7 @@ type TraceInfo struct {
 	Queries int      `json:"queries"`
 	Events  int      `json:"events"`
 	Samples []string `json:"samples"`
+	Cfg     string   `json:"cfg,omitempty"` // TLC configuration of the trace specification, when it has constants
 }
 
 // TraceGen: per property, drive the real library on generated inputs beyond the
